@@ -58,7 +58,8 @@ pub open spec fn free(s: QueueState) -> bool {
 pub open spec fn active(s: QueueState) -> bool { s is Running || s is AwokenWhileRunning }
 
 /// One critical section on a queue core, as seen by the ghost log
-pub ghost struct Sec { pub a: QueueState, pub b: QueueState, pub alen: nat, pub blen: nat, pub qsame: bool, pub appended: Option<BoxedJob>, pub waiters_kept: bool }
+pub ghost struct Sec { pub a: QueueState, pub b: QueueState, pub alen: nat, pub blen: nat, pub qsame: bool, pub appended: Option<BoxedJob>, pub waiters_kept: bool,
+                       pub wb: Seq<WeakCondvar> /* the blocked sync callers registered when the section began */ }
 
 /// Per-thread, per-queue ghost context
 pub tracked struct QCtx {
@@ -169,7 +170,7 @@ pub open spec fn step(c: QCtx, a: JobQueueCore, b: JobQueueCore) -> QCtx {
         appends: if appended_now { c.appends + 1 } else { c.appends },
         log: c.log.push(Sec { a: s, b: t, alen: alen, blen: blen, qsame: a.queue@ =~= b.queue@,
             appended: if appended_now { Some(b.queue@.last()) } else { None },
-            waiters_kept: live_waiters_kept(a.wake_blocked@, b.wake_blocked@) }),
+            waiters_kept: live_waiters_kept(a.wake_blocked@, b.wake_blocked@), wb: a.wake_blocked@ }),
         ..c1
     }
 }
@@ -241,7 +242,9 @@ pub open spec fn others_kept(before: Seq<Arc<JobQueue>>, after: Seq<Arc<JobQueue
 }
 /// wake log: which wakers this thread has woken, and which waker it installed in a DrainWaker
 pub tracked struct WCtx { pub ghost woken: Seq<Waker>, pub ghost installed: Option<Waker> }
-pub tracked struct G { pub tracked q: QCtx, pub tracked s: SCtx, pub tracked w: WCtx }
+/// notification log: how many `Condvar::notify_one` calls this thread made, and for which registered waiters
+pub tracked struct NotifyCtx { pub ghost notified: nat, pub ghost who: Set<WeakCondvar> }
+pub tracked struct G { pub tracked q: QCtx, pub tracked s: SCtx, pub tracked w: WCtx, pub tracked n: NotifyCtx }
 
 pub type Schedule = VecDeque<Arc<JobQueue>>;
 
